@@ -250,23 +250,11 @@ Theorem C13_sort_is_permutation :
 Proof. split; [exact sort_perms_ok | exact (proj1 sort_moves_edge)]. Qed.
 Print Assumptions C13_sort_is_permutation.
 
-(* segments: a marked cell is replaced by its two halves meeting at a new vertex that carries the cell's
-   midpoint; an unmarked cell is kept *)
-Theorem C13_line_bisection : forall p t marked k i,
-  index_of k marked = Some i ->
-  let nn := length (nonmarked (length t) marked) in
-  let r := line_adaptive p t marked in
-  let mid := S (tab_max t) + i in
-  nth (nn + i) (snd r) [] = [nth 0 (nth k t []) 0; mid] /\
-  nth (nn + length marked + i) (snd r) [] = [mid; nth 1 (nth k t []) 0] /\
-  (S (tab_max t) = length p -> nth mid (fst r) [] = ent_mean 1 p (nth k t [])).
-Proof. exact line_adaptive_marked. Qed.
-Print Assumptions C13_line_bisection.
-
-Theorem C13_line_unmarked_kept : forall p t marked k,
+(* segments: an unmarked cell is kept (the bisection of marked cells is the last-but-one theorem of this file) *)
+Theorem C13_line_unmarked_kept : forall base p t marked k,
   k < length t -> index_of k marked = None ->
   match line_children (length t) marked k with
-  | [c] => nth c (snd (line_adaptive p t marked)) [] = nth k t []
+  | [c] => nth c (snd (line_adaptive base p t marked)) [] = nth k t []
   | _ => False
   end.
 Proof. exact line_adaptive_unmarked. Qed.
@@ -294,6 +282,24 @@ Example C13_instance :
   map (fun c => class_of pats (pattern [true; true; true; false; false] c)) t2f = [1; 4].
 Proof. vm_compute. split; reflexivity. Qed.
 Print Assumptions C13_instance.
+
+(* segments (refuted on a tree where the midpoints are numbered from np.max(t) + 1 instead of p.shape[1] — defect N50: wrong as
+   soon as the point array has unused trailing points): a marked cell is replaced by its two halves meeting at a new vertex that
+   carries the cell's midpoint, for EVERY point array and connectivity *)
+Theorem C13_line_bisection : forall p t marked k i,
+  index_of k marked = Some i ->
+  let nn := length (nonmarked (length t) marked) in
+  let r := line_adaptive (gen_line_mid_base p t) p t marked in
+  let mid := gen_line_mid_base p t + i in
+  nth (nn + i) (snd r) [] = [nth 0 (nth k t []) 0; mid] /\
+  nth (nn + length marked + i) (snd r) [] = [mid; nth 1 (nth k t []) 0] /\
+  nth mid (fst r) [] = ent_mean 1 p (nth k t []).
+Proof.
+  intros p t marked k i Hi.
+  destruct (line_adaptive_marked (gen_line_mid_base p t) p t marked k i Hi) as [H1 [H2 H3]].
+  split; [exact H1 | split; [exact H2 | exact (H3 eq_refl)]].
+Qed.
+Print Assumptions C13_line_bisection.
 
 (* kept last — refuted on a tree where MeshLine1._adaptive keeps the old subdomain dictionary (defect F4):
    the subdomain map in force for segments lists exactly the cells that replace cell k *)
